@@ -412,9 +412,6 @@ def read_tables(path: Path):
     tc = find_func(mod, "try_coerce_to")
     tcs = ast.unparse(tc)
     for need in ("if not isinstance(act, NumericType) or not isinstance(exp, NumericType):\n        return None",
-                 "if act.kind < exp.kind:", "self_placeholder"):
-        pass
-    for need in ("if not isinstance(act, NumericType) or not isinstance(exp, NumericType):\n        return None",
                  "if act.kind < exp.kind:", "f = ctx.globals.get_instance_func(act, f'__{exp.kind.name.lower()}__')",
                  "node, subst = f.check_call([node], exp, node, ctx)"):
         if need not in tcs:
